@@ -126,6 +126,7 @@ class AsyncSocket(base_socket.BaseSocket):
             if not abort:
                 await self.send(packet.Packet(packet.CLOSE))
             self.closed = True
+            await self.queue.put(None)
             if wait:
                 await self.queue.join()
 
